@@ -488,8 +488,13 @@ Qed.
 (* for diagnosis: when an edit of the source makes the checker reject the regenerated table, this
    lemma fails first and Coq's message shows (function, offending statement) in clear text *)
 Definition z2s (l : str) : string := string_of_list_ascii (map (fun z => Ascii.ascii_of_nat (Z.to_nat z)) l).
+Fixpoint sdedup (l : list (string * string)) : list (string * string) :=
+  match l with
+  | [] => []
+  | (a, b) :: r => if existsb (fun p => String.eqb (fst p) a && String.eqb (snd p) b) r then sdedup r else (a, b) :: sdedup r
+  end.
 Definition table_complaints : list (string * string) :=
-  flat_map (fun r => let '(fn, _, _, _) := r in map (fun w => (z2s fn, z2s w)) (row_complaint conv_of r)) frame_use_table.
+  sdedup (flat_map (fun r => let '(fn, _, _, _) := r in map (fun w => (z2s fn, z2s w)) (row_complaint conv_of r)) frame_use_table).
 Lemma frame_use_no_complaint : table_complaints = [].
 Proof. vm_compute. reflexivity. Qed.
 
@@ -526,6 +531,10 @@ Qed.
 (* the returns at which a frame is dropped (neither released nor handed on nor left to the
    caller) are exactly the documented leaks on fault paths *)
 Lemma drops_are_expected : table_drops conv_of frame_use_table = expected_drops.
+Proof. vm_compute. reflexivity. Qed.
+
+(* the stores of a frame into the heap are the reviewed ones *)
+Lemma escapes_are_expected : frame_escapes = expected_escapes.
 Proof. vm_compute. reflexivity. Qed.
 
 (* ------------------------------------------------------------------ tie to the FrameOwn model *)
